@@ -1,10 +1,338 @@
 /-
-  Model module `Object` (driver op `obj`). Import-free apart from RsjModel.* modules.
+  Model of the object-layer algebra of `rsjsonnet-lang/src/program/data.rs`
+  (`ObjectData`, `ObjectLayer`, `ObjectField::{Normal,Removed}`, `find_field`,
+  `has_field`, `has_visible_field`, `get_fields_order`,
+  `get_visible_fields_order`, `extend_object`, `object_with_field_removed`)
+  and of the three evaluator entry points that give `self` / `super` their
+  meaning (`want_field`, `want_super_field`, `State::InSuper`,
+  `PendingThunk::FieldPlus` in `eval/mod.rs`, `eval/expr.rs`).
+
+  Representation.  `ObjectData { self_layer, super_layers }` is the list
+  `self_layer :: super_layers` (index 0 = `self_layer`, exactly the `layer_i`
+  numbering of `get_layer`).  A layer's `FHashMap` is an association list looked
+  up by first match (the analyser / `RepeatedFieldName` make keys unique in the
+  implementation).
+
+  Loops.  `find_field` / `has_visible_field` advance an index with
+  `layer_i += depth; layer_i += 1` on a `Removed(depth)` marker.  Here the same
+  walk is a structural recursion over the remaining layers with a `skip`
+  counter (`skip = depth` layers are stepped over, the next one is examined);
+  running off the end of `super_layers` (`get(layer_i - 1) == None`) is the `[]`
+  case.
+
+  `get_fields_order` folds layer by layer into a `BTreeMap<name, FieldState>`.
+  An entry is only ever touched by fields of the same name, so the model runs
+  the very same state machine (`foldStep`) once per name (`foldName`) over the
+  sorted, duplicate-free set of all names (`names`).
+
+  Field payloads are a tiny expression language, enough to observe late
+  binding: a literal, `self.f`, `super.f`, `if 'f' in super then 1 else 0`,
+  each optionally in the `+:` form.  `evalAt` mirrors the thunk machinery: a
+  thunk is `InProgress` exactly while it is on the evaluation stack, so
+  re-entering a `(layer, name)` that is on the stack is `InfiniteRecursion`.
 -/
 import RsjModel.Util
 namespace Rsj.Object
 
-/-- `obj <args...>` : one canonical answer line, or `none` for a malformed request. -/
-def handle (_args : List String) : Option String := none
+abbrev Name := String
+
+/-- `ast::Visibility` -/
+inductive Vis where
+  | default | hidden | forceVisible
+deriving Repr, DecidableEq
+
+/-- Field body (the `expr` of `ObjectFieldData`). -/
+inductive FExpr where
+  | lit (n : Int)
+  | selfField (f : Name)
+  | superField (f : Name)
+  /-- `if 'f' in super then 1 else 0` -/
+  | inSuper (f : Name)
+deriving Repr, DecidableEq
+
+/-- `ObjectField`; `plus` is the `bool` of `expr: Option<(&Expr, bool)>` (`f+: e`). -/
+inductive Field where
+  | normal (vis : Vis) (plus : Bool) (e : FExpr)
+  | removed (depth : Nat)
+deriving Repr, DecidableEq
+
+abbrev Layer := List (Name × Field)
+/-- index 0 = `self_layer`, then `super_layers` -/
+abbrev Obj := List Layer
+
+/-- `layer.fields.get(&name)` -/
+def Layer.get (l : Layer) (n : Name) : Option Field := List.lookup n l
+
+/-- `extend_object(lhs, rhs)` (`lhs + rhs`): rhs layers on top of lhs layers. -/
+def extend (lhs rhs : Obj) : Obj := rhs ++ lhs
+
+/-- `ObjectData::new_empty()` (`{}`) -/
+def empty : Obj := [[]]
+
+/-- `object_with_field_removed`: `Removed(super_layers.len() + 1)`. -/
+def removeKey (o : Obj) (k : Name) : Obj := [(k, Field.removed o.length)] :: o
+
+/-! ### find_field / has_field -/
+
+/-- The loop of `find_field` over the remaining layers `ls` (the first of which
+    has index `i`), with `skip` layers still to be stepped over. -/
+def findFrom : List Layer → Nat → Nat → Name → Option (Nat × Vis × Bool × FExpr)
+  | [], _, _, _ => none
+  | _ :: ls, skip + 1, i, n => findFrom ls skip (i + 1) n
+  | l :: ls, 0, i, n =>
+    match l.get n with
+    | none => findFrom ls 0 (i + 1) n
+    | some (.normal v p e) => some (i, v, p, e)
+    | some (.removed d) => findFrom ls d (i + 1) n
+
+/-- `find_field(layer_i, name)` -/
+def findField (o : Obj) (start : Nat) (n : Name) : Option (Nat × Vis × Bool × FExpr) :=
+  findFrom (o.drop start) 0 start n
+
+/-- `has_field(layer_i, name)` -/
+def hasField (o : Obj) (start : Nat) (n : Name) : Bool := (findField o start n).isSome
+
+/-! ### has_visible_field -/
+
+def visFrom : List Layer → Nat → Bool → Name → Bool
+  | [], _, found, _ => found
+  | _ :: ls, skip + 1, found, n => visFrom ls skip found n
+  | l :: ls, 0, found, n =>
+    match l.get n with
+    | none => visFrom ls 0 found n
+    | some (.normal .default _ _) => visFrom ls 0 true n
+    | some (.normal .hidden _ _) => false
+    | some (.normal .forceVisible _ _) => true
+    | some (.removed d) => visFrom ls d found n
+
+/-- `has_visible_field(name)` -/
+def hasVisibleField (o : Obj) (n : Name) : Bool := visFrom o 0 false n
+
+/-! ### get_fields_order -/
+
+/-- `FieldState` of `get_fields_order` (`absent` = vacant map entry). -/
+inductive FState where
+  | absent
+  | normal (v : Vis) (skipUntil : Nat)
+  | removed (layer : Nat)
+deriving Repr, DecidableEq
+
+/-- `field_to_state` -/
+def fieldToState (f : Field) (i : Nat) : FState :=
+  match f with
+  | .normal v _ _ => .normal v 0
+  | .removed d => .removed (i + d)
+
+/-- One visit of layer `i` to the map entry of a name (`f` = that layer's
+    field of this name, if any). -/
+def foldStep (st : FState) (i : Nat) (f : Option Field) : FState :=
+  match f with
+  | none => st
+  | some f =>
+    match st with
+    | .absent => fieldToState f i
+    | .normal .default s =>
+      if i > s then
+        match f with
+        | .normal v _ _ => .normal v 0
+        | .removed d => .normal .default (i + d)
+      else st
+    | .normal _ _ => st
+    | .removed r => if i > r then fieldToState f i else st
+
+def foldName : List Layer → Nat → FState → Name → FState
+  | [], _, st, _ => st
+  | l :: ls, i, st, n => foldName ls (i + 1) (foldStep st i (l.get n)) n
+
+/-- final `filter_map` of `get_fields_order` -/
+def FState.vis : FState → Option Vis
+  | .normal v _ => some v
+  | _ => none
+
+/-- Resulting visibility of name `n` in `o` (`none`: not a field). -/
+def finalVis (o : Obj) (n : Name) : Option Vis := (foldName o 0 .absent n).vis
+
+/-- insertion into a sorted duplicate-free list (the `BTreeMap` key set) -/
+def sortedInsert (k : Name) : List Name → List Name
+  | [] => [k]
+  | h :: t => if k < h then k :: h :: t else if k = h then h :: t else h :: sortedInsert k t
+
+def rawNames (o : Obj) : List Name := o.flatMap (fun l => l.map Prod.fst)
+
+/-- key set of the `BTreeMap`, in `SortedInternedStr` order -/
+def names (o : Obj) : List Name := (rawNames o).foldr sortedInsert []
+
+/-- `get_fields_order()` -/
+def fieldsOrder (o : Obj) : List (Name × Vis) :=
+  (names o).filterMap (fun n => (finalVis o n).map (fun v => (n, v)))
+
+/-- `get_visible_fields_order()` -/
+def visibleFields (o : Obj) : List Name :=
+  (fieldsOrder o).filterMap (fun p => if p.2 ≠ Vis.hidden then some p.1 else none)
+
+/-- `std.length` on an object -/
+def objLength (o : Obj) : Nat := (visibleFields o).length
+
+/-! ### evaluation of field bodies (self / super / +:) -/
+
+inductive Err where
+  | unknownField (f : Name)        -- `UnknownObjectField`
+  | superWithoutSuper              -- `SuperWithoutSuperObject`
+  | infiniteRecursion              -- `InfiniteRecursion`
+  | fuel                           -- model artefact; never produced with `fuelFor`
+deriving Repr, DecidableEq
+
+/-- Body of a field living in layer `li`; `rec start f` forces the field `f`
+    looked up from layer `start` of the final object. -/
+def evalBody (o : Obj) (rec : Nat → Name → Except Err Int) (li : Nat) : FExpr → Except Err Int
+  | .lit k => .ok k
+  -- `self.f`: `want_field(self_object, f)` = lookup from layer 0 of the whole object
+  | .selfField f => rec 0 f
+  -- `super.f`: `want_super_field`
+  | .superField f =>
+    if li + 1 = o.length then .error .superWithoutSuper else rec (li + 1) f
+  -- `'f' in super`: `has_field(layer_i + 1, f)`
+  | .inSuper f => .ok (if hasField o (li + 1) f then 1 else 0)
+
+/-- A field thunk: plain body, or `PendingThunk::FieldPlus` (super field
+    first, then the body, then `+`; just the body if super has no such field). -/
+def evalField (o : Obj) (rec : Nat → Name → Except Err Int) (li : Nat) (n : Name)
+    (plus : Bool) (e : FExpr) : Except Err Int :=
+  if plus then
+    match findField o (li + 1) n with
+    | some _ =>
+      match rec (li + 1) n with
+      | .error er => .error er
+      | .ok a =>
+        match evalBody o rec li e with
+        | .error er => .error er
+        | .ok b => .ok (a + b)
+    | none => evalBody o rec li e
+  else evalBody o rec li e
+
+/-- Force the field `n` looked up from layer `start` of the final object `o`
+    (`find_object_field_thunk(object, start, n)` + `DoThunk`).
+    `stack` = thunks currently `InProgress`. -/
+def evalAt (o : Obj) : Nat → List (Nat × Name) → Nat → Name → Except Err Int
+  | 0, _, _, _ => .error .fuel
+  | fuel + 1, stack, start, n =>
+    match findField o start n with
+    | none => .error (.unknownField n)
+    | some (li, _, plus, e) =>
+      if (li, n) ∈ stack then .error .infiniteRecursion
+      else evalField o (evalAt o fuel ((li, n) :: stack)) li n plus e
+
+def fieldCount (o : Obj) : Nat := (o.map List.length).sum
+
+/-- enough fuel: the stack never repeats a `(layer, name)` -/
+def fuelFor (o : Obj) : Nat := fieldCount o + 2
+
+/-- value of `o.n` -/
+def fieldValue (o : Obj) (n : Name) : Except Err Int := evalAt o (fuelFor o) [] 0 n
+
+/-- Manifestation of a flat object: visible fields in order, first error wins. -/
+def manifest (o : Obj) : Except Err (List (Name × Int)) :=
+  (visibleFields o).mapM (fun n => (fieldValue o n).map (fun v => (n, v)))
+
+/-! ### Driver -/
+
+inductive OExpr where
+  | layer (l : Layer)
+  | plus (a b : OExpr)
+  | rm (k : Name) (a : OExpr)
+deriving Repr
+
+def OExpr.eval : OExpr → Obj
+  | .layer l => [l]
+  | .plus a b => extend a.eval b.eval
+  | .rm k a => removeKey a.eval k
+
+def parseVis : String → Option Vis
+  | "d" => some .default | "h" => some .hidden | "v" => some .forceVisible | _ => none
+
+def parseFExpr (s : String) : Option FExpr :=
+  match s.toList with
+  | 'l' :: r => (String.ofList r).toInt?.map FExpr.lit
+  | 's' :: r => some (.selfField (String.ofList r))
+  | 'S' :: r => some (.selfField (String.ofList r))    -- `self['f']`, same `want_field`
+  | 'u' :: r => some (.superField (String.ofList r))
+  | 'U' :: r => some (.superField (String.ofList r))   -- `super['f']` (`State::SuperIndex`), same `want_super_field`
+  | 'i' :: r => some (.inSuper (String.ofList r))
+  | _ => none
+
+/-- `name:vis:plus:expr` -/
+def parseField (s : String) : Option (Name × Field) :=
+  match s.splitOn ":" with
+  | [n, v, p, e] => do
+    let v ← parseVis v
+    let p ← (if p == "1" then some true else if p == "0" then some false else none)
+    let e ← parseFExpr e
+    pure (n, .normal v p e)
+  | _ => none
+
+def parseLayer : List String → Layer → Option (Layer × List String)
+  | [], _ => none
+  | "}" :: rest, acc => some (acc.reverse, rest)
+  | t :: rest, acc =>
+    match parseField t with
+    | some f => parseLayer rest (f :: acc)
+    | none => none
+
+/-- prefix-notation object expression; fuel bounds the recursion by the token count -/
+def parseOExpr : Nat → List String → Option (OExpr × List String)
+  | 0, _ => none
+  | _ + 1, [] => none
+  | fuel + 1, t :: rest =>
+    if t == "{" then
+      (parseLayer rest []).map (fun (l, r) => (.layer l, r))
+    else if t == "+" then
+      match parseOExpr fuel rest with
+      | some (a, r1) =>
+        match parseOExpr fuel r1 with
+        | some (b, r2) => some (.plus a b, r2)
+        | none => none
+      | none => none
+    else if t == "rm" then
+      match rest with
+      | k :: r0 =>
+        match parseOExpr fuel r0 with
+        | some (a, r1) => some (.rm k a, r1)
+        | none => none
+      | [] => none
+    else none
+
+def showVis : Vis → String
+  | .default => "d" | .hidden => "h" | .forceVisible => "v"
+
+def showErr : Err → String
+  | .unknownField f => "Eunk." ++ f
+  | .superWithoutSuper => "Enosuper"
+  | .infiniteRecursion => "Einf"
+  | .fuel => "Efuel"
+
+def showVal : Except Err Int → String
+  | .ok v => toString v
+  | .error e => showErr e
+
+def b01 (b : Bool) : String := if b then "1" else "0"
+
+/-- Canonical observation of an object against a probe list. -/
+def observe (o : Obj) (probes : List Name) : String :=
+  let f := ",".intercalate ((fieldsOrder o).map (fun p => p.1 ++ "/" ++ showVis p.2))
+  let v := ",".intercalate (visibleFields o)
+  let p := ",".intercalate (probes.map (fun n =>
+    n ++ ":" ++ b01 (hasField o 0 n) ++ b01 (hasVisibleField o n) ++ b01 (hasField o 0 n)
+      ++ ":" ++ showVal (fieldValue o n)))
+  let m := match manifest o with
+    | .ok kv => "{" ++ ",".intercalate (kv.map (fun (q : Name × Int) => q.1 ++ ":" ++ toString q.2)) ++ "}"
+    | .error e => showErr e
+  s!"F={f}|V={v}|L={objLength o}|P={p}|M={m}"
+
+/-- `obj <prefix object expression> ? <probe names...>` -/
+def handle (args : List String) : Option String := do
+  let (e, rest) ← parseOExpr (args.length + 1) args
+  match rest with
+  | "?" :: probes => pure (observe e.eval probes)
+  | _ => none
 
 end Rsj.Object
